@@ -100,6 +100,8 @@ def has_quant(f) -> bool:
 
 
 class State:
+    hard_names = set()      # obligations already found undischargeable in this process: later instances get a short budget
+
     def __init__(self, prefix=None, timeout_ms=None):
         self.solver = z3.Solver()
         self.light = z3.Solver()          # quantifier-free part of the path condition: cheap feasibility pruning only
@@ -307,6 +309,11 @@ class State:
             status, backend = "discharged", "simplifier"
         else:
             self._last_backend = None
+            repeat = name in State.hard_names
+            saved_to = self.timeout_ms
+            if repeat:
+                self.timeout_ms = min(self.timeout_ms, 2000)
+                self.solver.set("timeout", self.timeout_ms)
             r, model = self._check_staged(f)
             cand = False
             if r == z3.unsat:
@@ -320,7 +327,7 @@ class State:
                 from .smt import candidate_model
                 r3s, m3 = candidate_model(self.pc, z3.Not(f), min(self.timeout_ms, 5000))
                 r3 = z3.sat if r3s == "sat" else (z3.unsat if r3s == "unsat" else z3.unknown)
-                if r3 == z3.sat and witness_fn is None:
+                if r3 == z3.sat and witness_fn is None and not repeat:
                     # a candidate exists (and no replayer could use it): the obligation is probably false, so a longer
                     # run on the FULL VC is worth it
                     fr = solve_fallback(self.pc + [z3.Not(f)], max(self.timeout_ms * 3, 30000))
@@ -334,6 +341,8 @@ class State:
                     detail = (detail + " candidate counter-model from finitely instantiated VC").strip()
                 elif r3 == z3.unsat:
                     status, backend = "discharged", "z3-5.1(api,finite instances of the quantified assumptions)"
+                elif status is None and repeat:
+                    status, detail = "unknown", (detail + " (short budget: same obligation already undischarged on another path)").strip()
                 elif status is None:
                     fr = solve_fallback(self.pc + [z3.Not(f)], self.timeout_ms)
                     backend = fr.backend
@@ -341,6 +350,11 @@ class State:
                     model = fr.model
                     if status == "unknown":
                         detail = (detail + " reason=" + fr.reason).strip()
+            if repeat:
+                self.timeout_ms = saved_to
+                self.solver.set("timeout", self.timeout_ms)
+            if status in ("failed", "unknown"):
+                State.hard_names.add(name)
             if status in ("failed", "unknown"):
                 if model is not None and witness_fn is not None:
                     try:
